@@ -20,7 +20,7 @@ def parse_pattern(s):
             name = toks[i + 1].text
             kind = ""
             i += 2
-            if i + 1 < len(toks) and toks[i].text == ":" and toks[i + 1].kind == "id" and toks[i + 1].text in ("ident", "opt", "any", "expr", "lit"):
+            if i + 1 < len(toks) and toks[i].text == ":" and toks[i + 1].kind == "id" and toks[i + 1].text in ("ident", "opt", "any", "expr", "lit", "chain"):
                 kind = toks[i + 1].text
                 i += 2
             out.append(("var", name, kind))
@@ -61,6 +61,47 @@ def _match_at(toks, i, pat, pi, binds):
                 binds.clear()
                 binds.update(b)
             return r
+        return None
+    if kind == "chain":
+        if i >= len(toks):
+            return None
+        if i > 0 and toks[i - 1].text in (".", "::"):
+            return None
+        t = toks[i]
+        if t.kind == "id" and t.text not in ("let", "mut", "if", "else", "match", "return", "in", "for", "while", "as"):
+            j = i + 1
+        elif t.text == "(":
+            if i > 0 and (toks[i - 1].kind == "id" or toks[i - 1].text in (")", "]", ">", "!")):
+                return None
+            j = match_close(toks, i) + 1
+        elif t.kind in ("num", "str"):
+            j = i + 1
+        else:
+            return None
+        ends = []
+        while True:
+            ends.append(j)
+            if j >= len(toks):
+                break
+            x = toks[j]
+            if x.text in (".",) and j + 1 < len(toks) and toks[j + 1].kind in ("id", "num"):
+                j += 2
+            elif x.text == "::" and j + 1 < len(toks) and toks[j + 1].kind == "id":
+                j += 2
+            elif x.text in ("(", "["):
+                j = match_close(toks, j) + 1
+            elif x.text == "?":
+                j += 1
+            else:
+                break
+        for e in ends:
+            b = dict(binds)
+            b[name] = toks[i:e]
+            r = _match_at(toks, e, pat, pi + 1, b)
+            if r is not None:
+                binds.clear()
+                binds.update(b)
+                return r
         return None
     # balanced sequence, shortest first
     j = i
@@ -220,7 +261,96 @@ def rule_R6(toks):
     return toks, n
 
 
-NAMED_RULES = {"R0": rule_R0, "R1": rule_R1, "R5": rule_R5, "R6": rule_R6}
+def split_commas(toks):
+    out, cur, depth = [], [], 0
+    for t in toks:
+        if t.kind == "punct" and t.text in OPEN:
+            depth += 1
+        elif t.kind == "punct" and t.text in CLOSE:
+            depth -= 1
+        elif t.text == "," and depth == 0:
+            if cur:
+                out.append(cur)
+            cur = []
+            continue
+        cur.append(t)
+    if cur:
+        out.append(cur)
+    return out
+
+
+def rule_concat(toks):
+    """`[e1, e2, ..].concat()` → `{ let mut vcat: Vec<u8> = Vec::new(); vext(&mut vcat, e1); ..; vcat }`
+    (definition of <[&[u8]]>::concat: flatten in order)"""
+    out = []
+    i = 0
+    n = 0
+    while i < len(toks):
+        t = toks[i]
+        if t.text == "[" and (i == 0 or toks[i - 1].kind == "punct" and toks[i - 1].text not in (")", "]")):
+            c = match_close(toks, i)
+            if c + 4 < len(toks) + 1 and [x.text for x in toks[c + 1:c + 5]] == [".", "concat", "(", ")"]:
+                elems = split_commas(toks[i + 1:c])
+                elems = [rule_concat(e)[0] for e in elems]
+                txt = "{ let mut vcat: Vec<u8> = Vec::new(); " + " ".join("vext(&mut vcat, %s);" % emit_trim(e) for e in elems) + " vcat }"
+                rep = lex(txt)
+                rep[0].ws = t.ws
+                out += rep
+                i = c + 5
+                n += 1
+                continue
+        out.append(t)
+        i += 1
+    return out, n
+
+
+def rule_bytes(toks):
+    """std byte-level calls without a vstd spec → spec'd wrappers whose bodies are the original call"""
+    n = 0
+    for pat, tmpl in (
+        ("$x:chain.to_be_bytes()", "vbe(&$x)"),
+        ("($x).to_be_bytes()", "vbe(&($x))"),
+        ("$x:chain.try_into()", "vtry_into(&$x)"),
+    ):
+        toks, k = rewrite(toks, pat, tmpl)
+        n += k
+    toks, k = rule_R6(toks)
+    n += k
+    toks, k = rule_concat(toks)
+    return toks, n + k
+
+
+def rule_assert(toks):
+    """runtime assertions become proof obligations: a reachable failing assert is a panic"""
+    n = 0
+    for pat, tmpl in (
+        ("assert_eq!($a:expr, $b:expr)", "vassert($a == $b)"),
+        ("assert_eq!($a:expr, $b:expr, $m:any)", "vassert($a == $b)"),
+        ("assert_ne!($a:expr, $b:expr)", "vassert($a != $b)"),
+        ("assert_ne!($a:expr, $b:expr, $m:any)", "vassert($a != $b)"),
+        ("assert!($a:expr)", "vassert($a)"),
+        ("assert!($a:expr, $m:any)", "vassert($a)"),
+        ("unreachable!($m:opt)", "vunreachable()"),
+        ("panic!($m:opt)", "vunreachable()"),
+        ("todo!($m:opt)", "vunreachable()"),
+    ):
+        toks, k = rewrite(toks, pat, tmpl)
+        n += k
+    return toks, n
+
+
+def rule_mapconcat(toks):
+    """R3: `X.iter().map(|p| E).collect::<Vec<_>>().concat()` → accumulate loop (definition of map/collect/concat)"""
+    return rewrite(toks, "$X:chain.iter().map(|$p:ident| $E).collect::<Vec<_>>().concat()",
+                   "{ let mut vacc: Vec<u8> = Vec::new(); for $p in $X.iter() { let vpart = $E; vext(&mut vacc, vpart.as_slice()); } vacc }")
+
+
+def rule_extend(toks):
+    """`v.extend(e);` on byte vectors → `vext(&mut v, e.as_slice())` (Extend<u8>/Extend<&u8> append in order)"""
+    return rewrite(toks, "$v:chain.extend($e);", "{ let vtmp = $e; vext(&mut $v, vtmp.as_slice()); }")
+
+
+NAMED_RULES = {"Rmapconcat": rule_mapconcat, "Rextend": rule_extend, "Rassert": rule_assert, "Rconcat": rule_concat, "Rbytes": rule_bytes, "R0": rule_R0, "R1": rule_R1, "R5": rule_R5, "R6": rule_R6}
 
 
 def loops(toks):
